@@ -346,6 +346,32 @@ func runC17(c *Ctx) {
 			}
 			c.check(okOwn, "watch-repair", relName(upd)+"#own-dir-kept", rem.Pos(), "the old directory is un-watched only when it is not the config file's own directory", whyOwn+": after regular file -> symlink into another directory -> regular file (each by rename) the last replacement is announced only in the config's own directory, which is no longer watched - the view never converges")
 		}
+		// the new directory is always added unless old == new: every return that is not preceded by the Add lies on
+		// the "same directory" branch (a guard for the config's own directory placed before the Add leaves the new
+		// resolved directory unwatched)
+		if add != nil && len(upd.Params) >= 3 {
+			oldPar, newPar := ssa.Value(upd.Params[len(upd.Params)-2]), ssa.Value(upd.Params[len(upd.Params)-1])
+			okAdd := true
+			for _, r := range returnsOf(upd) {
+				if domI(add, r) {
+					continue
+				}
+				same := false
+				for _, ec := range condsDominating(r.Block()) {
+					b, ok := ec.Cond.(*ssa.BinOp)
+					if !ok || (b.Op != token.EQL && b.Op != token.NEQ) || ec.Val != (b.Op == token.EQL) {
+						continue
+					}
+					if (b.X == oldPar && b.Y == newPar) || (b.X == newPar && b.Y == oldPar) {
+						same = true
+					}
+				}
+				if !same {
+					okAdd = false
+				}
+			}
+			c.check(okAdd, "watch-repair", relName(upd)+"#new-dir-added", add.Pos(), "the new resolved directory is watched on every path on which it differs from the old one", "updateDirWatches can return without watching the new resolved directory although it differs from the old one (a guard placed before the Add): after the config becomes a symlink into another directory, rewrites of the target are never noticed")
+		}
 		c.check(add != nil && rem != nil && domI(add, rem), "watch-repair", relName(upd), upd.Pos(), "the new directory watch is added before the old one is removed", "directory watches are not switched add-before-remove (a change in between would be lost)")
 	}
 
